@@ -2,6 +2,8 @@ package rules
 
 import (
 	"go/ast"
+	"go/token"
+	"go/types"
 	"strings"
 
 	"verif/checker/eng"
@@ -244,6 +246,73 @@ func runC18(p *eng.Prog, r *eng.Report, tier string) {
 		for _, w := range []string{"mux.Presence:stanza.AvailablePresence:" + x, "mux.Presence:stanza.UnavailablePresence:" + x, "mux.Message:stanza.NormalMessage:" + x} {
 			c.r.Check("C18.5", lf, "registration "+w, "K: the client handler is registered for the muc#user x payload", lf.Pos(), reg[w], "missing registration; have "+strings.Join(sortedKeys(reg), " "))
 		}
+	}
+	// C18.11 (E-trunc, decode target): the presence handler decodes the whole
+	// muc#user payload with one Decode; encoding/xml fails the whole Decode when
+	// a number does not fit its field. Status codes are three decimal digits
+	// (100..999, XEP-0045 registry): every integer field of the decode target
+	// holds at least 16 bits, otherwise a kick (307), ban (301) or room
+	// shutdown (332) makes HandlePresence fail before the unavailable arm and
+	// the room stays managed.
+	if hp := c.fn("C18.11", "muc", "(*Client).HandlePresence"); hp != nil {
+		nInt := 0
+		seen := map[types.Type]bool{}
+		var walk func(t types.Type, path string, pos token.Pos)
+		walk = func(t types.Type, path string, pos token.Pos) {
+			if seen[t] {
+				return
+			}
+			seen[t] = true
+			// a type with its own decoder is not filled in by reflection
+			if _, isNamed := t.(*types.Named); isNamed {
+				ms := types.NewMethodSet(types.NewPointer(t))
+				for _, m := range []string{"UnmarshalXML", "UnmarshalXMLAttr", "UnmarshalText"} {
+					if ms.Lookup(nil, m) != nil {
+						return
+					}
+				}
+			}
+			switch u := t.Underlying().(type) {
+			case *types.Pointer:
+				walk(u.Elem(), path, pos)
+			case *types.Slice:
+				walk(u.Elem(), path+"[]", pos)
+			case *types.Array:
+				walk(u.Elem(), path+"[]", pos)
+			case *types.Struct:
+				if n, ok := t.(*types.Named); ok && n.Obj().Pkg() != nil && !strings.HasPrefix(n.Obj().Pkg().Path(), "mellium.im/xmpp") {
+					return
+				}
+				for i := 0; i < u.NumFields(); i++ {
+					fl := u.Field(i)
+					if !fl.Exported() {
+						continue // encoding/xml skips unexported fields
+					}
+					fp := pos
+					if fl.Pos().IsValid() {
+						fp = fl.Pos()
+					}
+					walk(fl.Type(), path+"."+fl.Name(), fp)
+				}
+			case *types.Basic:
+				if u.Info()&types.IsInteger == 0 {
+					return
+				}
+				nInt++
+				wide := true
+				switch u.Kind() {
+				case types.Int8, types.Uint8:
+					wide = false
+				}
+				c.r.CheckNamed("C18.11", "muc.(*Client).HandlePresence", "integer field "+path+" of the decode target", "E-trunc: an integer decoded from the room's presence holds three-digit status codes (at least 16 bits)", pos, wide, "the field is "+u.String()+": a status code above 255 (kicked 307, banned 301, shutdown 332) fails the whole Decode and the departure is never processed")
+			}
+		}
+		for _, cl := range hp.Calls("encoding/xml.Decoder.Decode") {
+			if len(cl.Args) == 1 {
+				walk(hp.Info().TypeOf(cl.Args[0]), "payload", cl.Pos())
+			}
+		}
+		c.r.Floor("C18.11", "integer fields of the presence decode target", nInt, 1)
 	}
 	// C18.6 a refused or cancelled join does not block the next one
 	handoffWithdrawn(c, "C18.6", "muc", "(*Channel).JoinPresence", "muc.Channel.join")
